@@ -112,11 +112,18 @@ def bounded_treefn_rebatch(p):
       for sz in sizes:
         batches.append(list(range(start, start + sz)))
         start += sz
-      for fbs, bs in itertools.product((0, 2, 3), (1, 2, 4)):
-        t = tree_fns.TreeFn(fn=lambda xs: [x + 100 for x in xs], fn_batch_size=fbs, batch_size=bs)
+      # functions that keep, double or thin out the rows of a batch (the output batches must have the target size all the same)
+      fns = {'keep': lambda xs: [x + 100 for x in xs], 'explode': lambda xs: [y for x in xs for y in (x + 100, x + 200)],
+             'thin': lambda xs: [x + 100 for x in xs if x % 2 == 0]}
+      for (fname, fn), (fbs, bs) in itertools.product(fns.items(), itertools.product((0, 2, 3), (1, 2, 3, 4))):
+        if fname != 'keep' and (n > 3 or fbs == 0):
+          continue
+        t = tree_fns.TreeFn(fn=fn, fn_batch_size=fbs, batch_size=bs)
         got = expect(lambda: [list(x) for x in t.iterate([b for b in batches])])
-        flat = [x + 100 for x in range(start)]
+        rows = list(range(start))
+        calls = [rows[s:s + fbs] for s in range(0, len(rows), fbs)] if fbs else [b for b in batches]
+        flat = [y for c in calls for y in fn(c)]
         exp = [flat[s:s + bs] for s in range(0, len(flat), bs)]
-        if not S.check(got == ('ok', exp), dict(sizes=list(sizes), fn_batch_size=fbs, batch_size=bs), f'TreeFn(fn_batch_size={fbs}, batch_size={bs}) on batches {batches}: {got}; expected {exp}', cls=f'{fbs}-{bs}'):
+        if not S.check(got == ('ok', exp), dict(sizes=list(sizes), fn=fname, fn_batch_size=fbs, batch_size=bs), f'TreeFn({fname}, fn_batch_size={fbs}, batch_size={bs}) on batches {batches}: {got}; expected {exp}', cls=f'{fname}-{fbs}-{bs}'):
           return S.result()
   return S.result()
